@@ -140,7 +140,7 @@ func init() {
 		Rule: "one case = one simulated execution of a real drpcmigrate.ListenMux (prefix length 1-8, 1-3 routes registered before or while Run is running) over a simulated base listener with 2-6 dialers (registered / unregistered / too-short prefixes, payload written in arbitrary splits, some through HeaderConn with 1-3 concurrent writers), acceptor tasks per listener, and closers (route Close, context cancel, base listener error); distinct = distinct SHA-256 of the director log; non-trivial = at least one preemption",
 		Real: []string{"drpcmigrate.ListenMux", "drpcmigrate listener", "prefixConn", "HeaderConn"}, Stub: []string{"base net.Listener and net.Conn (simnet)", "sync (simsync)", "dialers/acceptors (scripted)"},
 		Assume: []string{"sequentially consistent interleavings at lock/channel/I-O granularity", "sampled programs and schedules"}}
-	props["C03"] = propCfg{Engine: "stream-model", Level: "exploration", Quick: 60000, Thorough: 6000000, QuickS: 40, ThoroughS: 1200,
+	props["C03"] = propCfg{Engine: "stream-model", Level: "exploration", Quick: 300000, Thorough: 6000000, QuickS: 40, ThoroughS: 1200,
 		Rule: "one case = one history over the alphabet {MsgSend, RawWrite, RawFlush, MsgRecv/RawRecv, CloseSend, Close, SendError, SendCancel, Cancel} x {peer packet: message, half-close, close, error (incl. malformed), cancel, invoke, invoke-metadata, unknown kind with/without control bit, any of them with a foreign stream id} executed on ONE real drpcstream.Stream over a real drpcwire.Writer and a simulated transport; sequential mode (65%): 1-9 events, each driven to quiescence and compared event by event (result class, emitted packets, terminated/finished/context signals, connection-fatal verdict) with an executable reference state machine; concurrent mode (35%): 2-3 caller tasks plus a packet feeder with writes parked in a stalled transport, order-independent rules; distinct = distinct SHA-256 of the director log",
 		Real: []string{"drpcstream.Stream", "drpcstream packetBuffer / inspectMutex", "drpcwire.Writer", "drpcsignal"}, Stub: []string{"transport (simnet)", "callers and peer (scripted)", "reference state machine (oracle, /verif/sim/e2_stream.go)"},
 		Assume: []string{"the reference state machine encodes state.dot, the package README and the property statement", "sampled histories and schedules"}}
